@@ -257,16 +257,18 @@ def _run(ctx):
              'a start path does not pass input_dict and wf_params',
              ctx.loc(sc))
     # the two paths are alternatives for the same request: they agree on
-    # the definition, namespace, execution id, input and description (the
+    # the definition, namespace, execution id and input (the
     # id is None on both: every start - a retry, a rerun, another item -
     # creates a NEW child; a derived id makes the second start find the
     # finished first child and create nothing)
     if len(starts) == 2:
-        a5 = [[norm(x) for x in c.args[:5]] for c in starts]
-        r3.check(a5[0] == a5[1] and len(a5[0]) == 5,
+        # (the fifth, the description text, is free to differ)
+        a5 = [[norm(x) for x in c.args[:4]] for c in starts]
+        r3.check(a5[0] == a5[1] and len(a5[0]) == 4,
                  ctx.construct(sc, extra='start paths agree'),
                  'the direct and the RPC start of a sub-workflow differ in '
-                 'their leading arguments: %s / %s' % (a5[0], a5[1]),
+                 'definition / namespace / execution id / input: %s / %s'
+                 % (a5[0], a5[1]),
                  ctx.loc(sc))
         r3.check(all(len(c.args) > 2 and (
                      (isinstance(c.args[2], ast.Constant) and
